@@ -10,17 +10,23 @@
    lead flips the corresponding switch here; nothing else changes. *)
 From JV Require Import Lib.Base Model.TyVal Model.Scalar Model.Ty Model.C02TyMut Spec.C02Defs.
 
-Definition pinned : fixes := as_is.
-Definition pinned_copy : bool := false.     (* true once C02-union-trial-mutates is repaired *)
+(* /repo now contains ec37b24 (union-vals-last), d000fe2 (literal-eq), f7876f0 (any-str-valueerror), ce28ec8
+   (union-trial-mutates), c374a1a (optional-enum-order); dict-key-unchecked is NOT repaired and stays an open finding *)
+Definition pinned : fixes := {| fx_union := true; fx_lit := true; fx_key := false; fx_valerr := true |}.
+Definition pinned_copy : bool := true.      (* ce28ec8: lists and dicts are copied before their items are adapted *)
 
 (* add_argument itself: typehint_metavar (_typehints.py:1557-1559) takes `__args__[0]` of an Optional[Enum] for the Enum,
    so Union[None, E] (None written first) raises AttributeError when the argument is declared *)
-Definition pinned_metavar : bool := false.  (* true once C02-optional-enum-order is repaired *)
-Definition decl_crash (t : ty) : bool :=
+Definition pinned_metavar : bool := true.   (* c374a1a *)
+Definition decl_crash_g (repaired : bool) (t : ty) : bool :=
   match t with
-  | TUnion [TNone; TEnum _ _] => negb pinned_metavar
+  | TUnion [TNone; TEnum _ _] => negb repaired
   | _ => false
   end.
+Definition decl_crash (t : ty) : bool := decl_crash_g pinned_metavar t.
+
+(* the tree before the C02 repairs (regression witnesses in Properties/C02.v are stated about it) *)
+Definition impl_before (yl : str -> lres) (t : ty) (v0 : val) : ares := parse_key_m as_is yl t v0.
 
 Definition impl (yl : str -> lres) (t : ty) (v0 : val) : ares :=
   if pinned_copy then parse_key_g pinned yl t v0 else parse_key_m pinned yl t v0.
